@@ -529,3 +529,26 @@ class ItemStrDecode:
         n = e5.uint_at(data, 1, k)
         return (type(result) is cls and len(result._value) == n
                 and forall(0, n, lambda j: ord(result._value[j]) == e5.text_char(fc, data[1 + k + j])))
+
+
+# =============================================================================================== L items (abstract children)
+from spec.ext import AbsVar  # noqa: E402
+from contracts.C01_containers import ChildEncodeAbs, child, concat_at  # noqa: E402
+
+
+@contract("secsgem.secs.item_l:ItemL.encode", "C14")
+class ItemLEncode:
+    """L header (minimal length bytes) ++ the children's encodings in order - children are abstract items that return
+    their bytes g_enc (every concrete item class is verified against that shape above); element count 0..3 (bounded shape)."""
+
+    cases = [(f"n{n}", {"n": n}) for n in (0, 1, 2, 3)]
+    uses = [ChildEncodeAbs]
+
+    def inputs(n):
+        return {"self": Obj(IL.ItemL, _value=FixedList(*[child() for _ in range(n)]))}
+
+    def raises():
+        return {}
+
+    def ensures(self, result, case):
+        return seq_eq_at(result[:2], 0, e5.header_min(0, case["n"])) and concat_at(result, 2, self._value)
